@@ -22,6 +22,8 @@ def main():
     def one(n):
         d = os.path.join(ROOT, n)
         meta = json.load(open(os.path.join(d, "meta.json")))
+        if os.environ.get("MATRIX_ONLY_MISSING") and meta.get("detected_by"):
+            return
         if meta.get("obsolete"):
             print("%-40s obsolete: %s" % (n, meta["obsolete"][:100]), flush=True)
             return
